@@ -167,9 +167,34 @@ def combine_records(pa, rng, count, rep):
                          "alpha": 0, "de": 1, "cattype": "abs", "M": [], "category": 0, "tuples": [], "obs": 0, "raised": ""})
             metas.append({"which": which, "category": cat, "observed": float(obs), "chance": [float(x) for x in chance], "value": float(value)})
             rep.case(key=json.dumps(metas[-1]))
-    # refusal for non-combined dissimilarities
-    for d in (pa.PositionalSporadicDissimilarity(), pa.AbsoluteCategoricalDissimilarity()):
+    # annotators that agree exactly on the positions and differ in categories, positional weight only (beta = 0):
+    # the overall observed disorder is exactly 0 while the categorical one is not
+    from pyannote.core import Segment
+    for _ in range(max(3, count // 6)):
+        c = pa.Continuum()
+        segs = [(float(3 * i), float(3 * i + rng.randint(1, 3))) for i in range(rng.randint(2, 4))]
+        for a in range(rng.choice([2, 3])):
+            for s0, e0 in segs:
+                c.add(f"g{a}", Segment(s0, e0), rng.choice(LABS))
+        d = pa.CombinedCategoricalDissimilarity(alpha=rng.choice([1, 3]), beta=0, delta_empty=1)
+        np.random.seed(rng.randint(0, 2 ** 31 - 1))
+        res = c.compute_gamma(d, n_samples=4)
+        obs = res.best_alignment.gamma_k_disorder(d, None)
+        chance = [a.gamma_k_disorder(d, None) for a in res.chance_alignments]
+        value = res.gamma_cat
+        if np.isfinite(value):
+            recs.append({"kind": "combine", "which": "cat", "observed": fxv(obs), "chance": [fxv(x) for x in chance], "value": fxv(value),
+                         "alpha": 0, "de": 1, "cattype": "abs", "M": [], "category": 0, "tuples": [], "obs": 0, "raised": ""})
+            metas.append({"which": "cat", "agreeing_positions_beta_0": True, "overall_observed_disorder": float(res.observed_disorder),
+                          "observed": float(obs), "chance": [float(x) for x in chance], "value": float(value)})
+    # refusal for non-combined dissimilarities (also on a perfectly agreeing continuum, where the overall disorder is 0)
+    for d in (pa.PositionalSporadicDissimilarity(), pa.AbsoluteCategoricalDissimilarity(), pa.PositionalSporadicDissimilarity(), pa.AbsoluteCategoricalDissimilarity()):
         c = grid_continuum(pa, rng, 2, 3)
+        if len(metas) % 2 == 0:
+            c = pa.Continuum()
+            for a in ("g0", "g1", "g2"):
+                for i in range(3):
+                    c.add(a, Segment(float(4 * i), float(4 * i + 2)), "a")
         al = c.get_best_alignment(d)
         raised = "none"
         try:
